@@ -208,6 +208,8 @@ class Interp:
             raise Unsupported(f"unexpected kwargs {list(kwargs)} for {qualname}")
         st.env = env
         self.cur.append((module, qualname))
+        prev_frames = st.ghost.get("__frames__", ())
+        st.ghost["__frames__"] = prev_frames + ((self.cur[-2] if len(self.cur) > 1 else None, saved_env),)
         try:
             outs = self.exec_block(fdef.body, st, module)
         finally:
@@ -220,8 +222,19 @@ class Interp:
                 raise Unsupported("break/continue outside loop")
             o.locals = o.state.env
             o.state.env = saved_env if len(outs) == 1 else dict(saved_env)
+            o.state.ghost["__frames__"] = prev_frames
             res.append(o)
         return res
+
+    @staticmethod
+    def frame_lookup(st, name, default=None):
+        """value of local `name` in the innermost active frame that binds it (current frame first, then the callers')"""
+        if name in st.env:
+            return st.env[name]
+        for _, env in reversed(st.ghost.get("__frames__", ())):
+            if env is not None and name in env:
+                return env[name]
+        return default
 
     # ------------------------------------------------------------------ statements
     def exec_block(self, stmts, state, module):
@@ -1266,6 +1279,12 @@ class Interp:
 
     def call_named(self, module, qualname, self_val, args, kwargs, st, node):
         h = self.reg.get((module, qualname))
+        if h is None and module in self.mods and len(self.cur) < 7:
+            try:
+                self.find_function(module, qualname)
+                h = "inline"        # a helper without a contract of its own is executed as part of its caller (the real code)
+            except Unsupported:
+                h = None
         if h is None:
             raise Unsupported(f"call to {module}.{qualname} which has neither contract nor inline mark "
                               f"(line {getattr(node, 'lineno', '?')})")
@@ -1296,6 +1315,9 @@ class Interp:
                                 return _Outcomes(self.call_function(modname, f"{dcls}.{name}", st, args,
                                                                     kwargs, self_val=recv, fdef=fdef))
                             return h(self, st, [recv] + list(args), kwargs, node)
+                    if len(self.cur) < 7:
+                        self.inlined.add((modname, f"{dcls}.{name}"))
+                        return _Outcomes(self.call_function(modname, f"{dcls}.{name}", st, args, kwargs, self_val=recv, fdef=fdef))
                     raise Unsupported(f"method {modname}.{cls}.{name} has neither contract nor inline mark "
                                       f"(line {getattr(node, 'lineno', '?')})")
             h = self.ext.get(("method", cls, name))
@@ -1303,6 +1325,19 @@ class Interp:
                 return h(self, st, [recv] + list(args), kwargs, node)
             raise Unsupported(f"method {cls}.{name} on abstract object (line {getattr(node, 'lineno', '?')})")
         kind = recv.kind if isinstance(recv, Ref) else type(recv).__name__
+        if isinstance(recv, tuple) and len(recv) == 3 and recv[0] == "class" and recv[1] in self.mods \
+                and ("method", "tuple", name) not in self.ext and len(self.cur) < 7:
+            dcls, fdef = self.class_of_method(recv[1], recv[2], name)
+            if fdef is not None:
+                h = self.reg.get((recv[1], f"{dcls}.{name}"))
+                if h is not None and h != "inline":
+                    return h(self, st, [recv] + list(args), kwargs, node)
+                decos = {ast.unparse(d) for d in fdef.decorator_list}
+                self.inlined.add((recv[1], f"{dcls}.{name}"))
+                if "staticmethod" in decos:
+                    return _Outcomes(self.call_function(recv[1], f"{dcls}.{name}", st, list(args), kwargs, fdef=fdef))
+                if "classmethod" in decos:
+                    return _Outcomes(self.call_function(recv[1], f"{dcls}.{name}", st, [recv] + list(args), kwargs, fdef=fdef))
         if isinstance(recv, Opaque) and recv.tag == "super":
             tree = self.mods[recv.info["module"]][0]
             classes = {n.name: n for n in tree.body if isinstance(n, ast.ClassDef)}
